@@ -55,3 +55,29 @@ CORPUS = [
     Mut('c04-matrix-exp-fallback-similarity-reversed', 'torchtree/evolution/substitution_model/abstract.py', '', "        offset = branch_lengths.dim() - e.dim() + 1\n", "        offset = branch_lengths.dim() - e.dim() + 1\n        if S.requires_grad and bool((e[..., 1:] - e[..., :-1] <= 1.0e-7).any()):\n            shape = e.shape[:-1] + (1,) * offset + S.shape[-2:]\n            exp_S = torch.matrix_exp(S.reshape(shape) * branch_lengths.unsqueeze(-1).unsqueeze(-1))\n            return sqrt_pi.expand(S.shape).reshape(shape) @ exp_S @ sqrt_pi_inv.expand(S.shape).reshape(shape)\n", expect=[('C04.E', 'SymmetricSubstitutionModel.p_t::alternative-return')], mode='text'),
     Mut('c04-benign-matrix-exp-fallback', 'torchtree/evolution/substitution_model/abstract.py', '', "        offset = branch_lengths.dim() - e.dim() + 1\n", "        offset = branch_lengths.dim() - e.dim() + 1\n        if S.requires_grad and bool((e[..., 1:] - e[..., :-1] <= 1.0e-7).any()):\n            shape = e.shape[:-1] + (1,) * offset + S.shape[-2:]\n            exp_S = torch.matrix_exp(S.reshape(shape) * branch_lengths.unsqueeze(-1).unsqueeze(-1))\n            return sqrt_pi_inv.expand(S.shape).reshape(shape) @ exp_S @ sqrt_pi.expand(S.shape).reshape(shape)\n", benign=True, mode='text'),
 ]
+CORPUS += [
+    Mut('c04-gtr-rates-floored', 'torchtree/evolution/substitution_model/nucleotide.py', 'GTR.q', 'rates = self.rates.unsqueeze(0)', 'rates = self.rates.clamp(min=0.0001).unsqueeze(0)',
+        expect=[('C04.L', 'GTR.q::rates-enters-the-matrix-unaltered')]),
+    Mut('c04-benign-gtr-rates-rescaled-by-their-maximum', 'torchtree/evolution/substitution_model/nucleotide.py', 'GTR.q', 'rates = self.rates.unsqueeze(0)',
+        'rates = (self.rates / self.rates.max(-1, keepdim=True)[0]).unsqueeze(0)', benign=True),
+    Mut('c04-general-nonsymmetric-normalised-by-another-distribution', 'torchtree/evolution/substitution_model/general.py', '', "    def handle_parameter_changed(self, variable, index, event):\n        self.fire_model_changed()\n\n    def q(self) -> torch.Tensor:\n        indices = torch.triu_indices(self.state_count, self.state_count, 1)\n        R = torch.zeros(\n            self._rates.tensor.shape[:-1] + (self.state_count, self.state_count),\n            dtype=self._rates.dtype,\n",
+        "    def norm(self, Q) -> torch.Tensor:\n        pi = torch.softmax(torch.diagonal(Q, dim1=-2, dim2=-1), -1)\n        return -torch.sum(torch.diagonal(Q, dim1=-2, dim2=-1) * pi, -1)\n\n    def handle_parameter_changed(self, variable, index, event):\n        self.fire_model_changed()\n\n    def q(self) -> torch.Tensor:\n        indices = torch.triu_indices(self.state_count, self.state_count, 1)\n        R = torch.zeros(\n            self._rates.tensor.shape[:-1] + (self.state_count, self.state_count),\n            dtype=self._rates.dtype,\n",
+        mode='text', expect=[('C04.N', 'GeneralNonSymmetricSubstitutionModel.norm::minus-sum-pi-Qii')]),
+    Mut('c04-mg94-amino-acid-looked-up-at-a-filtered-position', 'torchtree/evolution/substitution_model/codon.py', 'MG94.__init__', 'triplets = numpy.array(data_type.triplets)[coding_indices].tolist()',
+        "triplets = [t for t, a in zip(data_type.triplets[:64], data_type.table[:64]) if a != '*']\nsame = [data_type.table[i] == data_type.table[j] for (i, c1), (j, c2) in combinations(enumerate(triplets), 2)]",
+        expect=[('C04.X', 'MG94.__init__::data_type.table[i]')]),
+    Mut('c04-benign-mg94-amino-acid-of-the-filtered-list', 'torchtree/evolution/substitution_model/codon.py', 'MG94.__init__', 'triplets = numpy.array(data_type.triplets)[coding_indices].tolist()',
+        "triplets = [t for t, a in zip(data_type.triplets[:64], data_type.table[:64]) if a != '*']\nsense = [a for a in data_type.table[:64] if a != '*']\nsame = [sense[i] == sense[j] for (i, c1), (j, c2) in combinations(enumerate(triplets), 2)]",
+        benign=True),
+    Mut('c04-eigen-system-kept-once-per-class', 'torchtree/evolution/substitution_model/general.py', '', "    def p_t(self, branch_lengths: torch.Tensor) -> torch.Tensor:\n        offset = branch_lengths.dim() - self.e.dim() + 1\n",
+        "    _eigen_system = None\n\n    def eigen(self, Q: torch.Tensor) -> torch.Tensor:\n        if self._eigen_system is None:\n            EmpiricalSubstitutionModel._eigen_system = super().eigen(Q)\n        return self._eigen_system\n\n    def p_t(self, branch_lengths: torch.Tensor) -> torch.Tensor:\n        offset = branch_lengths.dim() - self.e.dim() + 1\n",
+        mode='text', expect=[('C04.E', 'memo::torchtree.evolution.substitution_model.general.EmpiricalSubstitutionModel.eigen::self._eigen_system')]),
+]
+CORPUS += [
+    Mut('c04-benign-norm-written-with-the-method-form-of-sum', 'torchtree/evolution/substitution_model/abstract.py', 'AbstractSubstitutionModel.norm', 'return -torch.sum(torch.diagonal(Q, dim1=-2, dim2=-1) * self.frequencies, -1)',
+        'return -(self.frequencies * torch.diagonal(Q, dim1=-2, dim2=-1)).sum(-1)', benign=True),
+    Mut('c04-benign-norm-as-the-total-flux', 'torchtree/evolution/substitution_model/abstract.py', 'AbstractSubstitutionModel.norm', 'return -torch.sum(torch.diagonal(Q, dim1=-2, dim2=-1) * self.frequencies, -1)',
+        'flux = self.frequencies.unsqueeze(-1) * Q\nreturn (torch.triu(flux, diagonal=1) + torch.tril(flux, diagonal=-1)).sum((-2, -1))', benign=True),
+    Mut('c04-norm-from-the-upper-triangle-only', 'torchtree/evolution/substitution_model/abstract.py', 'AbstractSubstitutionModel.norm', 'return -torch.sum(torch.diagonal(Q, dim1=-2, dim2=-1) * self.frequencies, -1)',
+        'flux = self.frequencies.unsqueeze(-1) * Q\nreturn 2.0 * torch.triu(flux, diagonal=1).sum((-2, -1))', expect=[('C04.N', 'AbstractSubstitutionModel.norm::minus-sum-pi-Qii')]),
+]
